@@ -149,6 +149,65 @@ theorem C13_late_unsubscribe_example :
     (exLate.1.cbs 0).evs = [.enter (0, 0), .exit, .unsubRet, .unsubRet, .unsubRet] ∧
     exLate.2.map (fun t => t.script.length) = [0] := by decide
 
+/-! ### why the callback list must never hand an element to a second subscription
+
+The model identifies a list element with the callback it was created for (`listed : List Nat`, a fresh
+index per `PushBack`), which is what `ds.list` does: `insertValue` allocates.  A list that recycles the
+most recently removed element (seeded change r6-1) breaks exactly this: the handle a stale unsubscribe
+closure holds then *is* the next subscriber's element. -/
+
+/-- A callback list with element identities: `(element id, callback)` in list order, `next` = the next fresh id,
+`spare` = a recycled element (always `none` in the real list). -/
+structure ElemList where
+  elems : List (Nat × Nat) := []
+  next : Nat := 0
+  spare : Option Nat := none
+
+/-- `PushBack` of the real list: a fresh element. -/
+def ElemList.push (l : ElemList) (cb : Nat) : ElemList × Nat :=
+  ({ l with elems := l.elems ++ [(l.next, cb)], next := l.next + 1 }, l.next)
+
+/-- `PushBack` of a list that recycles the spare element. -/
+def ElemList.pushRecycling (l : ElemList) (cb : Nat) : ElemList × Nat :=
+  match l.spare with
+  | some e => ({ l with elems := l.elems ++ [(e, cb)], spare := none }, e)
+  | none => l.push cb
+
+/-- `Remove(element)`: unlinks iff the element is in this list (`element.list == l`). -/
+def ElemList.remove (l : ElemList) (e : Nat) (recycle : Bool := false) : ElemList :=
+  if l.elems.any (·.1 == e) then
+    { l with elems := l.elems.filter (·.1 != e), spare := if recycle then some e else l.spare }
+  else l
+
+def ElemList.values (l : ElemList) : List Nat := l.elems.map (·.2)
+
+/-- With fresh elements a repeated `Remove` through a stale handle finds nothing, whatever was pushed in between. -/
+theorem C13_fresh_elements_stale_remove_noop (l : ElemList) (hlt : ∀ p ∈ l.elems, p.1 < l.next) (cbA cbB : Nat) :
+    let (l1, a) := l.push cbA
+    let l2 := l1.remove a
+    let (l3, _) := l2.push cbB
+    (l3.remove a).values = l3.values ∧ cbB ∈ (l3.remove a).values := by
+  have hne : ∀ p ∈ l.elems, (p.1 == l.next) = false := fun p hp => by
+    have := hlt p hp; simp; omega
+  have hnone : l.elems.any (fun p => p.1 == l.next) = false := by
+    rw [List.any_eq_false]; intro p hp; simp [hne p hp]
+  have hfilter : l.elems.filter (fun p => p.1 != l.next) = l.elems := by
+    rw [List.filter_eq_self]; intro p hp; simp [bne, hne p hp]
+  simp only [ElemList.push, ElemList.remove, ElemList.values, List.any_append, List.any_cons, List.any_nil,
+    BEq.rfl, Bool.or_false, Bool.or_true, if_true, List.filter_append, hfilter, List.filter_cons, bne_self_eq_false,
+    Bool.false_eq_true, if_false, List.filter_nil, List.append_nil, hnone, Bool.false_or]
+  have h1 : (l.next + 1 == l.next) = false := by simp
+  simp [h1]
+
+/-- The recycling list of seeded change r6-1: A subscribes and unsubscribes, B subscribes (and is given A's
+element), A's unsubscribe function is called again — B is gone from the list. -/
+theorem C13_recycled_element_witness :
+    let l0 : ElemList := {}
+    let (l1, a) := l0.pushRecycling 0
+    let l2 := l1.remove a true
+    let (l3, _) := l2.pushRecycling 1
+    l3.values = [1] ∧ (l3.remove a true).values = [] := by decide
+
 /-! ## Variable and Event -/
 section Var
 variable {V : Type} [DecidableEq V] (zero init : V)
